@@ -6,7 +6,7 @@ cd /repo || exit 2
 if ! git diff --quiet; then echo "/repo has local changes"; exit 2; fi
 git apply "$patch" || { echo "patch does not apply"; exit 2; }
 cd /verif
-/venv/bin/python harness/vcheck.py $prop --tier $tier ${SEEDTEST_ARGS:-} 2>&1 | grep -v "^KNOWN-FINDING" | tail -${SEEDTEST_TAIL:-6}
+VERIF_EVIDENCE_DIR=/tmp/verif-scratch-evidence /venv/bin/python harness/vcheck.py $prop --tier $tier ${SEEDTEST_ARGS:-} 2>&1 | grep -v "^KNOWN-FINDING" | tail -${SEEDTEST_TAIL:-6}
 rc=${PIPESTATUS[0]}
 git -C /repo checkout -- .
 echo "exit=$rc"
